@@ -1,6 +1,6 @@
 SPECIFICATION Spec
 CONSTANTS
- Kind = "fub"
+ Kind = "fob"
  Cap0 = 2
  NInit = 0
  NC = 3
@@ -8,10 +8,10 @@ CONSTANTS
  NW = 2
  MaxPolls = 2
  MaxItems = 1
- MaxWakes = 2
+ MaxWakes = 1
  GenMode = FALSE
  CursorFix = FALSE
- AllowFront = FALSE
+ AllowFront = TRUE
  Mut = "none"
  Perpetual = FALSE
  WaitMul = 1
